@@ -174,6 +174,49 @@ def active_family(ctx, n):
     return fails
 
 
+def entangled_active_family(ctx, n):
+    """active gates (also with complex blocks) acting on modes that are already correlated with spectator modes:
+    the Gaussian simulator is exact on every sector; the pure Fock simulator is run with a cutoff so large that the
+    truncation error on the compared low sectors is negligible (weak squeezing)"""
+    import piquasso as pq
+    from piquasso._math.fock import get_fock_space_basis
+    rng = np.random.default_rng(ctx.seed + 10101)
+    fails = []
+    for it in range(n):
+        d = int(rng.integers(2, 4))
+        hbar = float(rng.choice(HBARS))
+        u = lambda a, b: float(rng.uniform(a, b))
+        gates = []
+        for _ in range(int(rng.integers(3, 6))):
+            c = int(rng.integers(0, 6))
+            a, b = (int(x) for x in rng.choice(d, size=2, replace=False))
+            gates.append([lambda: (pq.Squeezing(r=u(0.05, 0.22), phi=u(0, 6.2)), (a,)), lambda: (pq.Beamsplitter(theta=u(0.2, 1.4), phi=u(0, 6.2)), (a, b)),
+                          lambda: (pq.Squeezing2(r=u(0.05, 0.18), phi=u(0, 6.2)), (a, b)), lambda: (pq.QuadraticPhase(s=u(-0.25, 0.25)), (a,)),
+                          lambda: (pq.Displacement(r=u(0.05, 0.25), phi=u(0, 6.2)), (a,)), lambda: (pq.Phaseshifter(phi=u(0, 6.2)), (a,))][c]())
+        desc = {"d": d, "hbar": hbar, "gates": [(type(g).__name__, {k: float(v) for k, v in g.params.items()}, m) for g, m in gates]}
+
+        def prog():
+            return pq.Program(instructions=[pq.Vacuum()] + [type(g)(**g.params).on_modes(*m) for g, m in gates])
+        low, big = 4, 13 if d == 2 else 11
+        try:
+            sg = pq.GaussianSimulator(d=d, config=pq.Config(cutoff=low, hbar=hbar)).execute(prog()).state
+            sf = pq.PureFockSimulator(d=d, config=pq.Config(cutoff=big, hbar=hbar)).execute(prog()).state
+        except Exception as e:
+            fails.append((f"entangled-active-raise:{type(e).__name__}", f"{type(e).__name__}: {str(e)[:120]}", desc)); continue
+        active_after_entangling = any(type(g).__name__ in ("Squeezing", "Squeezing2", "QuadraticPhase") for g, _ in gates[2:]) and any(len(m) == 2 for _, m in gates[:-1])
+        ctx.count(("entangled-active", it), nontrivial=active_after_entangling)
+        deficit = 1.0 - float(np.real(sf.norm))
+        worst, where = 0.0, None
+        for occ in get_fock_space_basis(d=d, cutoff=low):
+            pg = float(np.real(sg.get_particle_detection_probability(tuple(int(x) for x in occ))))
+            pf = float(np.real(sf.get_particle_detection_probability(tuple(int(x) for x in occ))))
+            if abs(pg - pf) > worst:
+                worst, where = abs(pg - pf), (tuple(int(x) for x in occ), pg, pf)
+        if worst > 1e-6 + 10 * abs(deficit):
+            fails.append(("entangled-active-probabilities", f"Gaussian vs PureFock (cutoff {big}) on the low sectors: P{where[0]} = {where[1]:.8f} vs {where[2]:.8f} (norm deficit of the Fock state {deficit:.1e})", desc))
+    return fails
+
+
 def kerr_family(ctx, n):
     """Kerr-type gates and attenuation: PureFock vs Fock (and Passive for Kerr on number states)"""
     import piquasso as pq
@@ -272,7 +315,7 @@ def run(ctx):
         if p.returncode != 0:
             ctx.fail("repro:" + os.path.basename(f), "pinned regression fails: " + p.stdout[-300:], {"script": f})
     mism = fockrep_correspondence(ctx, 25 if quick else 400)
-    fails = passive_family(ctx, n_p) + active_family(ctx, n_a) + kerr_family(ctx, n_k)
+    fails = passive_family(ctx, n_p) + active_family(ctx, n_a) + kerr_family(ctx, n_k) + entangled_active_family(ctx, 30 if quick else 600)
     ctx.notes["correspondence_mismatches"] = len(mism)
     seen = set()
     for key, msg, inp in fails:
